@@ -106,6 +106,9 @@ class CondGen:
         if k == "cmp":
             return ["cmp", self.num_term(names), op, self.lit()]
         if k == "cmp2":
+            if len(names) >= 2 and rng.random() < 0.6:
+                a, b = rng.sample(names, 2)       # a join condition between two different variables
+                return ["cmp", self.num_term([a]), op, self.num_term([b])]
             return ["cmp", self.num_term(names), op, self.num_term(names)]
         if k == "objeq":
             return ["cmp", self.obj_term(names), rng.choice(["==", "!="]), self.obj_term(names)]
@@ -143,6 +146,14 @@ class CondGen:
                 return ["nest", n, [self.cond([n], max(0, depth - 1))]]
             return self.atom(names)
         r = rng.random()
+        if len(names) >= 2 and rng.random() < 0.12:
+            # a disjunction (or conjunction) of join conditions over the same two variables, e.g.
+            # or_(worker.grade == job.grade, worker.site == job.site)
+            a, b = rng.sample(names, 2)
+            ops = ["==", "==", "!=", "<", "<=", ">", ">="]
+            parts = [["cmp", self.num_term([a]), rng.choice(ops), self.num_term([b])]
+                     for _ in range(rng.choice([2, 2, 3]))]
+            return [rng.choice(["or", "or", "and"])] + parts
         if r < 0.4:
             return ["and", self.cond(names, depth - 1), self.cond(names, depth - 1)]
         if r < 0.8:
